@@ -55,7 +55,7 @@ static mut BT_ACTION: bool = false;
 static mut BT_PUSHED: usize = 0;
 static mut BT_PUSH_IS_PRINTER: [bool; 4] = [false; 4];
 static mut BT_BUILT: usize = 0;
-fn tree_script(_args: &[&str], _config: &mut Config, _i: usize, _b: bool) -> Result<(usize, Box<dyn Matcher>), Box<dyn Error>> {
+fn tree_script(_args: &[&str], _config: &mut Config, _i: usize, _b: bool, _rt: &mut super::regex::RegexType) -> Result<(usize, Box<dyn Matcher>), Box<dyn Error>> {
     unsafe { Ok((0, Box::new(Probe { id: 1, result: true, quits: false, action: BT_ACTION }))) }
 }
 fn nac_rec<M: Matcher>(_b: &mut AndMatcherBuilder, m: M) {
